@@ -30,6 +30,7 @@ func runC20(c *fw.Ctx) {
 	r203(c)
 	r204(c)
 	r205(c)
+	r206(c)
 }
 
 const cachePkg = "packages/cache"
@@ -853,4 +854,148 @@ func r205(c *fw.Ctx) {
 	}
 	c.Floor(rule, "atomic counter uses", nAtomic, 4)
 	c.Floor(rule, "sync.Map uses", nMap, 5)
+}
+
+// R20.6: a re-list replaces the record of every package it lists. In Prepare, every iteration over the
+// listing stores a record for that package (no iteration is skipped before the Store): a listing can be
+// asked for because a dependency's fingerprint changed or the export file vanished while the package's own
+// fingerprint is unchanged, and the old record would keep the stale dependency fingerprints / file.
+//
+// R20.7: records do not share storage. The dependency slice put into a record is allocated inside the loop
+// iteration that builds the record (make / literal), in Prepare and in loadCachePkgs; a slice cut from
+// storage that lives across iterations lets a later record overwrite an earlier record's dependencies.
+func r206(c *fw.Ctx) {
+	for _, fname := range []string{"packages/cache:(*Impl).Prepare", "packages/cache:(*Impl).loadCachePkgs"} {
+		fd, p := needDecl(c, "R20.7", fname)
+		if fd == nil {
+			continue
+		}
+		info := p.TypesInfo
+		short := strings.TrimPrefix(fname, "packages/cache:(*Impl).")
+		var loops []ast.Stmt
+		ast.Inspect(fd.Body, func(m ast.Node) bool {
+			var body *ast.BlockStmt
+			switch l := m.(type) {
+			case *ast.RangeStmt:
+				body = l.Body
+			case *ast.ForStmt:
+				body = l.Body
+			default:
+				return true
+			}
+			hasStore := false
+			for _, st := range body.List {
+				ast.Inspect(st, func(k ast.Node) bool {
+					switch x := k.(type) {
+					case *ast.ForStmt, *ast.RangeStmt, *ast.FuncLit:
+						return false
+					case *ast.CallExpr:
+						if isFunc(callee(info, x), "sync", "Map.Store") {
+							hasStore = true
+						}
+					}
+					return true
+				})
+			}
+			if hasStore {
+				loops = append(loops, m.(ast.Stmt))
+			}
+			return true
+		})
+		if len(loops) != 1 {
+			c.Undecided("R20.7", short+"/record-loop", fd.Pos(), "expected one loop that stores records, found %d", len(loops))
+			continue
+		}
+		var body *ast.BlockStmt
+		switch l := loops[0].(type) {
+		case *ast.RangeStmt:
+			body = l.Body
+		case *ast.ForStmt:
+			body = l.Body
+		}
+		// R20.6 (Prepare only): the Store is a top-level statement of the body with no continue/break before it
+		if short == "Prepare" {
+			reached, skipped := false, ""
+			for _, st := range body.List {
+				if es, ok := st.(*ast.ExprStmt); ok {
+					if call, ok := es.X.(*ast.CallExpr); ok && isFunc(callee(info, call), "sync", "Map.Store") {
+						reached = true
+						break
+					}
+				}
+				ast.Inspect(st, func(k ast.Node) bool {
+					switch x := k.(type) {
+					case *ast.ForStmt, *ast.RangeStmt, *ast.FuncLit:
+						return false
+					case *ast.BranchStmt:
+						if x.Tok == token.CONTINUE || x.Tok == token.BREAK || x.Tok == token.GOTO {
+							skipped = x.Tok.String() + " at " + c.Position(x.Pos())
+						}
+					case *ast.ReturnStmt:
+						skipped = "return at " + c.Position(x.Pos())
+					}
+					return true
+				})
+				if skipped != "" {
+					break
+				}
+			}
+			c.Check(reached && skipped == "", "R20.6", "Prepare/stores-a-record-for-every-listed-package", body.Pos(),
+				"an iteration over the listing can leave (%s) before the package's record is replaced: the stale record (old export file, old dependency fingerprints) keeps being served and keeps forcing re-lists", skipped)
+		}
+		// R20.7: the deps value of the record literal is allocated in this iteration
+		var lit *ast.CompositeLit
+		ast.Inspect(body, func(k ast.Node) bool {
+			if l, ok := k.(*ast.CompositeLit); ok && namedIs(info.TypeOf(l), fw.Mod+"/packages/cache", "pkgCache") {
+				lit = l
+			}
+			return true
+		})
+		if lit == nil {
+			c.Undecided("R20.7", short+"/record-literal", body.Pos(), "no pkgCache literal in the record loop")
+			continue
+		}
+		depsExpr := structFields(info, lit)["deps"]
+		fresh, why := false, "the record has no deps value"
+		if depsExpr != nil {
+			e := unparen(depsExpr)
+			if id, ok := e.(*ast.Ident); ok {
+				o := info.Uses[id]
+				why = "deps comes from " + id.Name + ", which is not defined in this iteration"
+				ast.Inspect(body, func(k ast.Node) bool {
+					if as, ok := k.(*ast.AssignStmt); ok && as.Tok == token.DEFINE && len(as.Lhs) == len(as.Rhs) {
+						for i, l := range as.Lhs {
+							if lid, ok := l.(*ast.Ident); ok && info.Defs[lid] == o {
+								e = unparen(as.Rhs[i])
+								why = ""
+							}
+						}
+					}
+					return true
+				})
+			}
+			if why == "" || depsExpr == e {
+				switch x := e.(type) {
+				case *ast.CallExpr:
+					if fid, ok := unparen(x.Fun).(*ast.Ident); ok && fid.Name == "make" {
+						fresh = true
+					} else {
+						why = "deps is the result of " + exprString(x.Fun)
+					}
+				case *ast.CompositeLit:
+					fresh = true
+				case *ast.SliceExpr:
+					why = "deps is cut from " + exprString(x.X) + ", storage that outlives the iteration"
+				default:
+					if tv, ok := info.Types[e]; ok && tv.IsNil() {
+						fresh = true
+					} else {
+						why = "deps is " + exprString(e)
+					}
+				}
+			}
+		}
+		c.Check(fresh, "R20.7", short+"/record-deps-freshly-allocated", lit.Pos(),
+			"every record must own its dependency list (allocated in the iteration that builds it); %s: a later record overwrites an earlier record's dependencies, so a changed dependency goes unnoticed and Save no longer reproduces what was loaded", why)
+	}
 }
